@@ -10,7 +10,7 @@ LEAN_MODULES = ["LhasaV.Props.C07"]
 VH_FEATURES = ["reader"]
 PER_OP_SECONDS = 20
 THEOREMS = {"exit_status_iff": "full at model level: exit status 0 iff no exit(-1), no fault, every handled member good (lha t / x / e, any archive)",
-            "handled_members_selected": "full", "progress_bar_width": "full",
+            "handled_members_selected": "full", "exit_status_cases": "full: 255 after exit(-1), else 0 iff every handled member good, else 1 (no fault can occur)", "progress_bar_width": "full",
             "check_iff": "full: verdict good <-> length and CRC of the decoded bytes match (non-Mac members)",
             "check_iff_arc": "full: ... and that CRC is CRC-16/ARC", "extract_iff": "full", "truncation_bad": "full",
             "check_dir": "full", "check_iff_all": "full: every member incl. the MacBinary pass-through (no OS-type hypothesis)", "extract_iff_all": "full", "truncation_bad_all": "full",
